@@ -34,7 +34,7 @@ class PairOb(OracleOb):
     target_apart = True
 
     def classify(self, names, lifted, exp):
-        if self.family == "tabs":
+        if self.family in ("tabs", "locals"):
             o = gen.Oracle(names, self.quotes)
             if cross_scope_alias_region(self.st, self.val(names), o.tid):
                 return "C02-alias-equals-name-used-in-other-scope"
@@ -66,15 +66,18 @@ def obligations(tier, seed):
     budget = 5 if tier == "quick" else 7
     tabs = [PairOb(k, st, "ansi", "tabs", budget, seed) for k, st in tpl]
     cols = [PairOb(k, st, "ansi", "cols", budget, seed) for k, st in tpl]
+    # third family: statement-local names (derived aliases, CTE names, table aliases) first - coincidences BETWEEN scopes
+    locs = [PairOb(k, st, "ansi", "locals", budget, seed) for k, st in tpl
+            if sum(1 for m in set(__import__("re").findall(r"zq[adc]\d+", __import__("checks.gen", fromlist=["x"]).Renderer().stmt(st)))) >= 2]
     if tier == "quick":
         def pick(obs):
             keep = [o for o in obs if ("/plain" in o.key and "/insert/" in o.key) or "expr/" in o.key or "merge" in o.key or "update" in o.key
                     or "_cols" in o.key or "nodata" in o.key]
             rest = [o for o in obs if o not in keep and "/plain" not in o.key]
             return keep + rnd.sample(rest, len(rest) // 3)
-        obs = pick(tabs) + pick(cols)
+        obs = pick(tabs) + pick(cols) + [o for o in locs if "nested" in o.key or "union" in o.key or "cte" in o.key or "where_in" in o.key][::2]
     else:
-        obs = tabs + cols
+        obs = tabs + cols + locs
         for k, st in tpl:
             if "/plain" in k and k.startswith("insert/") or "expr/" in k:
                 obs.append(PairOb(k, st, "ansi", "cols", 5, seed, length=3))
